@@ -532,11 +532,13 @@ def r8_side_tolerance(repo: Repo, rep, rule_id="R-C05-8"):
                     work.append(n.func.attr)
         if not any(isinstance(n, ast.Call) and (attr_chain(n.func) or "").endswith("isclose") for fi in reach.values() for n in ast.walk(fi.node)):
             continue
+        from ..util import deref, single_defs
+        body_of = {m: deref(fi.node, single_defs(fi.node)) for m, fi in reach.items()}  # temporaries replaced by their values
         # barycentric names and constant helper arguments, propagated through the helper calls to a fix-point
         bary: Dict[str, Set[str]] = {m: set() for m in reach}
         consts: Dict[Tuple[str, str], Optional[Set[float]]] = {}
         for m, fi in reach.items():
-            for n in ast.walk(fi.node):
+            for n in ast.walk(body_of[m]):
                 if isinstance(n, ast.Assign) and isinstance(n.value, ast.Call) and isinstance(n.value.func, ast.Attribute) and n.value.func.attr == "_solve_lgs":
                     for t in n.targets:
                         bary[m].update(x.id for x in ast.walk(t) if isinstance(x, ast.Name))
@@ -544,6 +546,8 @@ def r8_side_tolerance(repo: Repo, rep, rule_id="R-C05-8"):
         def is_bary(e, m):
             if isinstance(e, ast.Name):
                 return e.id in bary[m]
+            if isinstance(e, ast.Subscript) and isinstance(e.value, ast.Call) and isinstance(e.value.func, ast.Attribute) and e.value.func.attr == "_solve_lgs":
+                return True
             if isinstance(e, ast.BinOp) and isinstance(e.op, (ast.Add, ast.Sub)):
                 return is_bary(e.left, m) and is_bary(e.right, m)
             return False
@@ -551,10 +555,10 @@ def r8_side_tolerance(repo: Repo, rep, rule_id="R-C05-8"):
         alts: Dict[str, Dict[str, List[ast.AST]]] = {m: {} for m in reach}
         for m, fi in reach.items():
             single = {}
-            for n in ast.walk(fi.node):
+            for n in ast.walk(body_of[m]):
                 if isinstance(n, ast.Assign) and len(n.targets) == 1 and isinstance(n.targets[0], ast.Name):
                     single.setdefault(n.targets[0].id, []).append(n.value)
-            for n in ast.walk(fi.node):
+            for n in ast.walk(body_of[m]):
                 if not isinstance(n, (ast.For, ast.comprehension)):
                     continue
                 it = n.iter
@@ -578,7 +582,7 @@ def r8_side_tolerance(repo: Repo, rep, rule_id="R-C05-8"):
         while changed:
             changed = False
             for m, fi in reach.items():
-                for n in ast.walk(fi.node):
+                for n in ast.walk(body_of[m]):
                     if not (isinstance(n, ast.Call) and isinstance(n.func, ast.Attribute) and attr_chain(n.func.value) == "self" and n.func.attr in reach):
                         continue
                     callee = reach[n.func.attr]
@@ -608,7 +612,13 @@ def r8_side_tolerance(repo: Repo, rep, rule_id="R-C05-8"):
                                 changed = True
         for m, fi in sorted(reach.items()):
             rep.saw(fi)
-            for n in ast.walk(fi.node):
+            once = set()
+            for n in ast.walk(body_of[m]):
+                if isinstance(n, (ast.Call, ast.Compare)):
+                    key = (getattr(n, "lineno", 0), getattr(n, "col_offset", 0), dump(n))
+                    if key in once:
+                        continue  # the value of a temporary that is read several times
+                    once.add(key)
                 if isinstance(n, ast.Call) and (attr_chain(n.func) or "") in ("torch.isclose", "np.isclose", "numpy.isclose") and len(n.args) >= 2:
                     cexpr = n.args[1]
                     vals = None
